@@ -403,6 +403,9 @@ def run(ctx: lib.Ctx) -> None:
                                                                   'expected': V.spec_cmp(t, a, b), 'repro': code})
     ctx.extra['compare_cases'] = len(cases)
     ctx.extra['set_cases'] = len(scases)
+    # sets / maps / big_maps built from unordered Python lists and dicts must come out ordered by the Michelson order
+    from c15 import python_object_stream
+    python_object_stream(ctx, rng, len(ctx.violations))
     V.report_sorted_check(ctx)
 
 
